@@ -1048,6 +1048,79 @@ Lemma copy_self_example :
   fst (run_fs fs_init ops_copy_self) = [RW true; RC true; RR (ROk [1; 2; 3]); RC false].
 Proof. vm_compute. auto. Qed.
 
+(* ------------------------------------------------------ writers as handles *)
+Lemma append_refines m p data : inv m -> p <> [] ->
+  fst (append m p data) = fst (spec_append (files m) p data) /\
+  inv (snd (append m p data)) /\
+  files (snd (append m p data)) = snd (spec_append (files m) p data).
+Proof.
+  intros Hinv Hp. unfold append, spec_append. rewrite (read_sget _ _ Hinv Hp).
+  destruct (sget p (files m)) as [c|]; simpl; [|auto]. apply write_refines; assumption.
+Qed.
+
+Lemma step_w_refines m hs o : inv m ->
+  fst (step_w (m, hs) o) = fst (step_w_spec false (files m, hs) o) /\
+  inv (fst (snd (step_w (m, hs) o))) /\
+  files (fst (snd (step_w (m, hs) o))) = fst (snd (step_w_spec false (files m, hs) o)) /\
+  snd (snd (step_w (m, hs) o)) = snd (snd (step_w_spec false (files m, hs) o)).
+Proof.
+  intro Hinv. destruct o as [o|n|k data|k]; simpl.
+  - destruct (step_refines m o Hinv) as [H1 [H2 H3]].
+    destruct (step_fs m o) as [r m']. destruct (step_spec false (files m) o) as [r' s']. simpl in *. subst. auto.
+  - destruct (write_refines m (components n) [] Hinv (components_nonempty n)) as [H1 [H2 H3]].
+    destruct (write m (components n) []) as [ok m']. destruct (spec_write (files m) (components n) []) as [ok' s'].
+    simpl in *. subst. auto.
+  - destruct (nth_error hs k) as [h|]; simpl; [|auto].
+    destruct (h_open h); simpl; [|auto].
+    destruct (append_refines m (components (h_name h)) data Hinv (components_nonempty _)) as [H1 [H2 H3]].
+    destruct (append m (components (h_name h)) data) as [ok m'].
+    destruct (spec_append (files m) (components (h_name h)) data) as [ok' s']. simpl in *. subst. auto.
+  - destruct (nth_error hs k) as [h|]; simpl; auto.
+Qed.
+
+Theorem run_w_refines : forall ops m hs, inv m ->
+  fst (run_w (m, hs) ops) = fst (run_w_spec false (files m, hs) ops) /\
+  files (fst (snd (run_w (m, hs) ops))) = fst (snd (run_w_spec false (files m, hs) ops)).
+Proof.
+  induction ops as [|o ops IH]; intros m hs Hinv; [simpl; auto|].
+  cbn [run_w run_w_spec].
+  destruct (step_w_refines m hs o Hinv) as [H1 [H2 [H3 H4]]].
+  destruct (step_w (m, hs) o) as [r [m1 hs1]]. destruct (step_w_spec false (files m, hs) o) as [r' [s1 hs1']].
+  cbn [fst snd] in *. subst r' s1 hs1'.
+  destruct (IH m1 hs1 H2) as [G1 G2].
+  destruct (run_w (m1, hs1) ops) as [rs st2]. destruct (run_w_spec false _ ops) as [rs' st2'].
+  cbn [fst snd] in *. subst rs'. split; [reflexivity | exact G2].
+Qed.
+
+Theorem writers_refinement ops :
+  fst (run_w (fs_init, []) ops) = fst (run_w_spec false ([], []) ops) /\
+  files (fst (snd (run_w (fs_init, []) ops))) = fst (snd (run_w_spec false ([], []) ops)).
+Proof. apply (run_w_refines ops fs_init [] inv_init). Qed.
+
+(* the specification of a stream of writes is a map: an open writer's object
+   holds exactly the bytes written through it so far, whatever was written to
+   OTHER objects in between *)
+Lemma spec_append_laws s p c data : sget p s = Some c -> collides p s = false ->
+  spec_append s p data = (true, sput p (c ++ data) s) /\
+  forall q, q <> p -> sget q (sput p (c ++ data) s) = sget q s.
+Proof.
+  intros Hg Hc. unfold spec_append, spec_write. rewrite Hg, Hc. split; [reflexivity|].
+  intros q Hq. apply sget_sput_other. exact Hq.
+Qed.
+
+(* two writers open at the same time on different objects, one of them
+   closed twice before (as the service handlers do) *)
+Definition ops_two_writers : list wop :=
+  [WOpen [120]; WWrite 0 [1]; WClose 0; WClose 0;
+   WOpen [97]; WOpen [98]; WWrite 1 [1; 2]; WWrite 2 [3]; WWrite 1 [4]; WClose 1; WClose 2; WClose 2;
+   WPlain (ORead [97]); WPlain (ORead [98]); WWrite 1 [5]].
+Lemma two_writers_example :
+  fst (run_w (fs_init, []) ops_two_writers) =
+  [WOk true; WOk true; WOk true; WOk false;
+   WOk true; WOk true; WOk true; WOk true; WOk true; WOk true; WOk true; WOk false;
+   WR (RR (ROk [1; 2; 4])); WR (RR (ROk [3])); WOk false].
+Proof. vm_compute. reflexivity. Qed.
+
 (* ----------------------------------------- listings under a done context *)
 Lemma names_eqb_refl : forall a, names_eqb a a = true.
 Proof. induction a as [|x a IH]; simpl; [reflexivity|]. rewrite beq_refl. exact IH. Qed.
